@@ -140,6 +140,35 @@ def run_dynamic(shard):
     return part.result()
 
 
+# ---- nodes whose *types* carry bound and size expressions with symbols in them (type_t::subst is what types P.x) -------------
+TYPED_DECL = ("const int N = 3; const int M = 2; int an[N + 1]; int[0, N * M] rv; typedef struct { int[N, N + M] f; int g[M]; } rt; rt rr; "
+              "int am[M][N - 1]; typedef int[-N, N] sym_t; sym_t sv; sym_t sa[N]; int fr(int[0, N + M] q) { return q; } ")
+TYPED_EXPRS = ["an[1] + rv", "rr.f * 2", "am[0][1]", "rv = rr.f", "rr.g[1] + sv", "sa[2] - an[0]", "fr(rv) + fr(1)", "an", "rr", "am[1]",
+               "sv == rv ? an[0] : sa[1]", "forall (i : sym_t) sa[0] >= i", "sum (i : int[0, N - 1]) an[i]"]
+TYPED_XTA = (TYPED_DECL + """
+process T(const int pp, int &r) { int[0, pp * 2 + 1] w2; int[-pp, pp] w3; bool wa[pp]; struct { int[0, pp + pp] f; } wr; int[0, pp] w;
+  state A; init A; }
+int g1; int g2;
+P = T(7, g1);
+P2 = T(5, g2);
+system P, P2;
+""")
+TYPED_QUERIES = ["E<> P.w2 == P2.w2", "E<> P.w3 > 0 && P2.w3 < 0", "E<> P.wa == P.wa", "E<> P.wr.f + P2.wr.f > an[1]", "A[] P.w <= 7 && P2.w <= 5",
+                 "E<> P.wr == P.wr", "E<> P.wa[1] && !P2.wa[2]"]
+
+
+def run_typed(_):
+    part = engine.Part()
+    w = engine.worker("fast")
+    ctx = {"kind": "decl", "text": TYPED_DECL}
+    for text, r in zip(TYPED_EXPRS, call(w, "exprs", ctx, TYPED_EXPRS, typecheck=True)):
+        judge(part, "typed-expr", text, r, {"op": "exprs", "ctx": ctx, "items": [text], "laws": True})
+    qctx = {"kind": "xta", "text": TYPED_XTA}
+    for text, r in zip(TYPED_QUERIES, call(w, "queries", qctx, TYPED_QUERIES)):
+        judge(part, "typed-query", text, r, {"op": "queries", "ctx": qctx, "items": [text], "laws": True})
+    return part.result()
+
+
 DYN_SEQ_EXPRS = ["forall (w1 : Worker)(w1.load > a)", "(sum (w1 : Probe)(w1.level + b)) > c",
                  "exists (w1 : Worker)(forall (r : Probe)(w1.load > r.level + c))"]
 SEQ_EXPRS = ["a + b * c", "fn2(a, rec.g) > arr[b]", "a = b", "forall (i : int[0,1]) arr[i] > a", "p ? a : rec.f", "arr[a] + arr[b]",
@@ -184,8 +213,9 @@ def main():
                         "for 19 expressions (3 with dynamic quantifiers), each from freshly parsed objects, against a reference model of plain "
                         "trees; the same laws for every dynamic quantifier (forall/exists/sum over the instances of a dynamic template) x "
                         "template x body x surrounding, all ordered nestings incl. one binder name twice, and numOf/foreach/sum in SMC "
-                        "queries. non-trivial = parsed "
-                        "expression with laws evaluated."
+                        "queries; type-level substitution laws (every symbol of a bound or size expression in the type of any node: replaced "
+                        "everywhere, nothing else touched, original unchanged, identity) incl. expressions and process-member queries whose "
+                        "types have compound bounds and sizes. non-trivial = parsed expression with laws evaluated."
                         % (", depth-3 chains, two-compound-operand parents" if engine.tier() == "thorough" else ""))
     n = engine.ncpu()
     shards = [("d1", 0, 1)] + [("d2", i, n) for i in range(n)]
@@ -200,6 +230,9 @@ def main():
         rep.merge(res)
     for res in engine.pmap(run_dynamic, [(i, n) for i in range(n)]):
         rep.merge(res)
+    rep.merge(run_typed(None))
+    if not os.environ.get("UTAPV_REPO") and (rep.outcomes.get("typed-expr:not-parsed") or rep.outcomes.get("typed-query:not-parsed")):
+        raise RuntimeError("C19 generator bug: a typed expression or query does not parse")
     if not os.environ.get("UTAPV_REPO"):
         ex, qs = dynamic_items()
         unparsed = rep.outcomes.get("dynamic-expr:not-parsed", 0) + rep.outcomes.get("dynamic-query:not-parsed", 0)
